@@ -298,10 +298,12 @@ theorem defaults_applied_any_depth (S : Schema) (dec : Dec) (n sid : Nat) (path 
     ∃ c, dec k d = some c ∧ st'.get? (sub path f.key) = some (.scalar k c) :=
   paramParser_defaults S dec n sid path items st st' h sd hsd hnd f hf k d hk hd hrk hno
 
-/-- a miniature schema: one optional struct section `d` with a field `o` defaulting to `1`; the
+/-- a miniature schema: one optional struct section `d` with a field `o` defaulting to `1` (and a
+`routing` section whose `fallback` defaults to `x`); the
 empty configuration is accepted and the omitted section's default is in the typed result -/
 example :
-    let S : Schema := ⟨[⟨[⟨['o'], .scalar 1, some ['1'], false, false⟩], false⟩, ⟨[], true⟩],
+    let S : Schema := ⟨[⟨[⟨['o'], .scalar 1, some ['1'], false, false⟩], false⟩,
+                        ⟨[⟨"fallback".toList, .iface, some ['x'], false, false⟩], true⟩],
                        [⟨['d'], false, .struct 0⟩, ⟨"routing".toList, false, .struct 1⟩]⟩
     let dec : Dec := fun _ v => some v
     ∃ st, configNew S dec 4 [] = .ok st ∧ st.get? [['d'], ['o']] = some (.scalar 1 ['1']) := by
@@ -309,8 +311,8 @@ example :
   have hok : ∃ st, configNew S dec 4 [] = .ok st := by
     simp [S, dec, configNew, decodeSpecs, lookupSection, sectionParser, paramParser, applyDefaults, paramItems,
       checkRequired, applyPatches, patchMustFallback, patchMustRules, patchEmptyDns, patchHttp, putIfAbsent,
-      scalarAt, Store.get?, Store.put, sub, pBootstrap, pHttpMethod, pReqFallback, pRespFallback, pRules,
-      pFallback, kindAddrPort, kindHttpMethod]
+      Store.get?, Store.put, sub, pReqFallback, pRespFallback, pRules,
+      pFallback, kindAddrPort, kindHttpMethod, hasPrefixC, List.isPrefixOf]
   obtain ⟨st, hst⟩ := hok
   refine ⟨st, hst, ?_⟩
   obtain ⟨c, hc, hget⟩ := configNew_defaults S dec 4 [] st hst (by simp [S]) ⟨['d'], false, .struct 0⟩
